@@ -551,6 +551,10 @@ struct Visitor : RecursiveASTVisitor<Visitor> {
       X["cty"] = F->getType().getCanonicalType().getAsString(D.PP);
       X["kind"] = Dumper::scalarKind(F->getType());
       X["init"] = F->hasInClassInitializer();
+      if (F->hasInClassInitializer()) if (const Expr *IE = F->getInClassInitializer()) {
+        Expr::EvalResult R;
+        if (!IE->isValueDependent() && !IE->isTypeDependent() && IE->EvaluateAsInt(R, D.Ctx)) X["init_v"] = (int64_t)R.Val.getInt().getExtValue();
+      }
       X["line"] = D.lineOf(F->getLocation());
       X["mutable"] = F->isMutable();
       if (auto *RT = F->getType()->getBaseElementTypeUnsafe()->getAsCXXRecordDecl()) {
